@@ -148,8 +148,8 @@ End WithEnc.
 Definition f10_nodes : list node :=
   map (fun k => mk_node k JNull [] []) ["1"; "2"; "3"; "4"]%string.
 Definition f10_args : pargs :=
-  mk_args None None (Some (base64 "1")) (Some (base64 "4")) None None None false.
-Definition f10_cfg : config := mk_cfg [] [] false.
+  mk_args None None (Some (base64 "1")) (Some (base64 "4")) None None None false None.
+Definition f10_cfg : config := mk_cfg [] [] false [].
 
 Lemma f10_refutes :
   exists cfg l a c E1 cand,
